@@ -330,7 +330,12 @@ class Deep:
                 return
             if bb in seen:
                 # loop cut
-                self._finish(st, ("loop", fr.fid, bb), cut=True) if fr.fid == 0 else k(st, ("loop", fr.fid, bb))
+                if fr.fid == 0:
+                    self._finish(st, ("loop", fr.fid, bb), cut=True)
+                else:
+                    # a loop of an inlined callee: recorded, the callee is left with an unknown result
+                    st.effects.append(("loop-back", body.name, bb))
+                    k(st, ("loop", fr.fid, bb))
                 return
             seen = seen | {bb}
             blk = body.blocks[bb]
